@@ -113,6 +113,7 @@ func runBehaviour(t int, steps []gStep) []gEvent {
 	_, before := snapshot(w)
 	for i, st := range steps {
 		e := gEvent{T: t, I: i, R: st.R, G: st.G, Pred: st.Res}
+		installCalled := false
 		switch st.Op {
 		case "install":
 			e.Ev = "install"
@@ -121,9 +122,7 @@ func runBehaviour(t int, steps []gStep) []gEvent {
 				r, _, err := w.sb.Call(hs.SyncGenesisHeader, nativekit.Tx(w.op), in)
 				return r, err
 			})
-			if e.Res == "ok" && installedG == "" {
-				installedG = st.G
-			}
+			installCalled = true
 		case "sync":
 			e.Ev = "sync"
 			if fx.syncer == nil {
@@ -146,6 +145,10 @@ func runBehaviour(t int, steps []gStep) []gEvent {
 			vio.Fatal("unknown op %q", st.Op)
 		}
 		dg, after := snapshot(w)
+		if installCalled && e.Res == "ok" && (installedG == "" || len(nativekit.Diff(before, after)) > 0) {
+			installedG = st.G // the root now in force (a router without guard replaces it)
+			nsync = 0
+		}
 		if _, ok := ids[dg]; !ok {
 			ids[dg] = fmt.Sprintf("s%d", len(ids))
 		}
@@ -188,7 +191,11 @@ func genesisReplay() {
 func genesisProbe() {
 	for _, fx := range allRouters() {
 		t0 := time.Now()
-		evs := runBehaviour(0, []gStep{{Op: "install", R: fx.name, G: "bad"}, {Op: "install", R: fx.name, G: "g1"}, {Op: "install", R: fx.name, G: "g1"}, {Op: "install", R: fx.name, G: "g2"}})
+		steps := []gStep{{Op: "install", R: fx.name, G: "bad"}, {Op: "install", R: fx.name, G: "g1"}, {Op: "install", R: fx.name, G: "g1"}, {Op: "install", R: fx.name, G: "g2"}}
+		if fx.syncer != nil {
+			steps = []gStep{{Op: "sync", R: fx.name}, {Op: "install", R: fx.name, G: "g2"}, {Op: "sync", R: fx.name}, {Op: "sync", R: fx.name}, {Op: "install", R: fx.name, G: "g1"}, {Op: "sync", R: fx.name}}
+		}
+		evs := runBehaviour(0, steps)
 		for _, e := range evs[1:] {
 			vio.Emit(e)
 		}
